@@ -1535,9 +1535,15 @@ class Parameter(_ParameterBase):
             # Copy: a callback may remove (or add) watchers while they are iterated
             for watcher in list(self.watchers[attribute]):
                 self.owner.param._call_watcher(watcher, event)
-        finally:
+        except BaseException:
             if not self.owner.param._BATCH_WATCH:
-                self.owner.param._batch_call_watchers()
+                try:
+                    self.owner.param._batch_call_watchers()
+                except BaseException:
+                    pass
+            raise
+        if not self.owner.param._BATCH_WATCH:
+            self.owner.param._batch_call_watchers()
 
     def __getattribute__(self, key):
         """
@@ -1724,11 +1730,18 @@ class Parameter(_ParameterBase):
         try:
             for watcher in sorted(watchers, key=lambda w: w.precedence):
                 obj.param._call_watcher(watcher, event)
-        finally:
+        except BaseException:
             # Also if a watcher raised: events queued by the watchers that
             # already ran must not wait for some unrelated later assignment
+            # (the failure reported is the first one)
             if not obj.param._BATCH_WATCH:
-                obj.param._batch_call_watchers()
+                try:
+                    obj.param._batch_call_watchers()
+                except BaseException:
+                    pass
+            raise
+        if not obj.param._BATCH_WATCH:
+            obj.param._batch_call_watchers()
 
     def _validate_settable(self, obj, val, ref=None):
         """
@@ -2463,15 +2476,15 @@ class Parameters:
             for ddep in dynamic:
                 for dep in _resolve_mcs_deps(obj, [], [ddep]):
                     grouped[(id(dep.inst), id(dep.cls), dep.what)].append((ddep, dep))
-            # A parameter the method depends on directly and that a dynamic
-            # dependency is routed through as well ('a' and 'a.x') is served
-            # by the dynamic watcher alone: one watcher, one call
-            constant_grouped = defaultdict(list)
-            if dynamic or init:
+            if init:
+                # The direct dependencies have watchers of their own, set up
+                # once: within a batch the methods of an object run in the
+                # order of their declaration whichever parameter came first
+                constant_grouped = defaultdict(list)
                 for dep in _resolve_mcs_deps(obj, constant, []):
                     constant_grouped[(id(dep.inst), id(dep.cls), dep.what)].append((None, dep))
-
-            if init:
+                for group in constant_grouped.values():
+                    self_._watch_group(obj, method, queued, group)
                 m = getattr(self_.self, method)
                 if on_init and m not in init_methods:
                     init_methods.append(m)
@@ -2490,18 +2503,7 @@ class Parameters:
                         requeue.append((wobj, w))
 
             installed = []
-            for key, group in constant_grouped.items():
-                if key in grouped:
-                    continue
-                watcher = self_._watch_group(obj, method, queued, group)
-                if dynamic:
-                    # Which parameters the dynamic watchers serve changes
-                    # with the sub-objects: set up again along with them
-                    obj._param__private.dynamic_watchers[method].append(watcher)
-                    installed.append(watcher)
-
             for key, group in grouped.items():
-                group = group + constant_grouped.get(key, [])
                 watcher = self_._watch_group(obj, method, queued, group, attribute)
                 obj._param__private.dynamic_watchers[method].append(watcher)
                 installed.append(watcher)
@@ -2521,11 +2523,12 @@ class Parameters:
                 # the end of a batch, so that the method still runs exactly
                 # once (compared by value: in a deep copy the watcher kept
                 # here and the one registered on the sub-object are equal
-                # but distinct tuples). A waiting watcher without successor
-                # on its object - the object was detached - stays queued.
+                # but distinct tuples). A waiting watcher without a successor
+                # for all its parameters - its object was detached, a path
+                # no longer resolves - stays queued.
                 successor = next((n for n in installed
                                   if (n.cls if n.inst is None else n.inst) is wobj and n.what == w.what
-                                  and set(n.parameter_names) & set(w.parameter_names)), None)
+                                  and set(w.parameter_names) <= set(n.parameter_names)), None)
                 if successor is not None:
                     wobj.param._state_watchers = [
                         successor if w == q else q for q in wobj.param._state_watchers]
@@ -4343,7 +4346,9 @@ class Parameters:
     # already have a _state_push() method.
     # (isinstance(g,Parameterized) below is used to exclude classes.)
 
-    def _state_push(self_, _seen=None):
+    _state_seen = None  # objects visited by the _state_push/_state_pop in progress
+
+    def _state_push(self_):
         """
         Save this instance's state.
 
@@ -4360,25 +4365,34 @@ class Parameters:
         self = self_.self_or_cls
         if not isinstance(self, Parameterized):
             raise NotImplementedError('_state_push is not implemented at the class level')
-        _seen = set() if _seen is None else _seen
-        _seen.add(id(self))
-        for pname, p in self.param.objects('existing').items():
-            g = self.param.get_value_generator(pname)
-            if hasattr(g,'_Dynamic_last'):
-                g._saved_Dynamic_last.append(g._Dynamic_last)
-                g._saved_Dynamic_time.append(g._Dynamic_time)
-                # CB: not storing the time_fn: assuming that doesn't
-                # change.
-            elif isinstance(g,Parameterized) and id(g) not in _seen:
-                # (a sub-object: its dynamic values are part of this state;
-                # a class keeping short-term state of its own may define
-                # _state_push/_state_pop itself)
-                if hasattr(g, '_state_push'):
-                    g._state_push()
-                else:
-                    g.param._state_push(_seen)
+        outermost = Parameters._state_seen is None
+        if outermost:
+            Parameters._state_seen = set()
+        _seen = Parameters._state_seen
+        try:
+            if id(self) in _seen:
+                return
+            _seen.add(id(self))
+            for pname, p in self.param.objects('existing').items():
+                g = self.param.get_value_generator(pname)
+                if hasattr(g,'_Dynamic_last'):
+                    g._saved_Dynamic_last.append(g._Dynamic_last)
+                    g._saved_Dynamic_time.append(g._Dynamic_time)
+                    # CB: not storing the time_fn: assuming that doesn't
+                    # change.
+                elif isinstance(g,Parameterized) and id(g) not in _seen:
+                    # (a sub-object: its dynamic values are part of this
+                    # state; a class keeping short-term state of its own may
+                    # define _state_push/_state_pop itself)
+                    if hasattr(g, '_state_push'):
+                        g._state_push()
+                    else:
+                        g.param._state_push()
+        finally:
+            if outermost:
+                Parameters._state_seen = None
 
-    def _state_pop(self_, _seen=None):
+    def _state_pop(self_):
         """
         Restore the most recently saved state.
 
@@ -4387,20 +4401,29 @@ class Parameters:
         self = self_.self_or_cls
         if not isinstance(self, Parameterized):
             raise NotImplementedError('_state_pop is not implemented at the class level')
-        _seen = set() if _seen is None else _seen
-        _seen.add(id(self))
-        for pname, p in self.param.objects('existing').items():
-            g = self.param.get_value_generator(pname)
-            if hasattr(g,'_Dynamic_last'):
-                if not g._saved_Dynamic_last:
-                    continue    # installed after the state was pushed
-                g._Dynamic_last = g._saved_Dynamic_last.pop()
-                g._Dynamic_time = g._saved_Dynamic_time.pop()
-            elif isinstance(g,Parameterized) and id(g) not in _seen:
-                if hasattr(g, '_state_pop'):
-                    g._state_pop()
-                else:
-                    g.param._state_pop(_seen)
+        outermost = Parameters._state_seen is None
+        if outermost:
+            Parameters._state_seen = set()
+        _seen = Parameters._state_seen
+        try:
+            if id(self) in _seen:
+                return
+            _seen.add(id(self))
+            for pname, p in self.param.objects('existing').items():
+                g = self.param.get_value_generator(pname)
+                if hasattr(g,'_Dynamic_last'):
+                    if not g._saved_Dynamic_last:
+                        continue    # installed after the state was pushed
+                    g._Dynamic_last = g._saved_Dynamic_last.pop()
+                    g._Dynamic_time = g._saved_Dynamic_time.pop()
+                elif isinstance(g,Parameterized) and id(g) not in _seen:
+                    if hasattr(g, '_state_pop'):
+                        g._state_pop()
+                    else:
+                        g.param._state_pop()
+        finally:
+            if outermost:
+                Parameters._state_seen = None
 
     def pprint(
         self_,
